@@ -823,6 +823,23 @@ fn gen_auth(g: &mut Gen, f: &mut Faults) -> Item {
     Item::Bytes(g.small_bytes())
 }
 
+/// A list whose length sits on or next to a power of two where a counter, a stamp or an index of
+/// the implementation might wrap (255, 256, 257, 511, 512, 513, rarely 65535-65537): mostly the
+/// plain element, a few occurrences of the marked element at distances 1, 255, 256, 257, length-1.
+pub fn sparse_long_list(g: &mut Gen, plain: Item, marked: Item) -> Vec<Item> {
+    let n = if g.ratio(1, 12) { *g.pick(&[65535usize, 65536, 65537]) } else { *g.pick(&[254usize, 255, 256, 257, 258, 300, 511, 512, 513]) };
+    let mut v: Vec<Item> = (0..n).map(|_| plain.clone()).collect();
+    let first = g.below(n.min(6));
+    v[first] = marked.clone();
+    for _ in 0..g.weighted(&[1, 3, 2]) {
+        let d = *g.pick(&[1usize, 254, 255, 256, 257, 510, 511, 512, n - 1]);
+        if first + d < n {
+            v[first + d] = marked.clone();
+        }
+    }
+    v
+}
+
 fn gen_nested(g: &mut Gen, kind: Kind, f: &mut Faults, depth: usize) -> Item {
     if f.take(g, "nested-bad") {
         return match g.below(7) {
@@ -851,6 +868,12 @@ fn gen_nested(g: &mut Gen, kind: Kind, f: &mut Faults, depth: usize) -> Item {
         // rarely: a long list of minimal structures
         let n = 12 + g.below(40);
         return Item::Array((0..n).map(|_| gen_msg(g, kind, &mut Faults::none(), 0)).collect());
+    }
+    if g.ratio(1, 150) {
+        // rarer: a list as long as a byte-sized (or 16-bit) counter, a few elements of it with content
+        let plain = Item::Array(vec![Item::Bytes(vec![]), Item::Map(vec![]), if kind == Kind::Signature { Item::Bytes(vec![]) } else { Item::Null }]);
+        let marked = gen_msg(g, kind, &mut Faults::none(), 0);
+        return Item::Array(sparse_long_list(g, plain, marked));
     }
     let n = if depth == 0 { g.weighted(&[1, 6, 2, 1, 1]) } else { g.weighted(&[1, 5, 3, 2, 1]) };
     let mut v: Vec<Item> = (0..n).map(|_| gen_msg(g, kind, f, depth.saturating_sub(1))).collect();
@@ -1082,6 +1105,12 @@ pub fn gen_key(g: &mut Gen, f: &mut Faults) -> Item {
 pub fn gen_keyset(g: &mut Gen, f: &mut Faults) -> Item {
     if f.take_odds(g, "keyset-not-array", 30) {
         return gen_wrong_kind(g, &["array"]);
+    }
+    if g.ratio(1, 60) {
+        // a key set as long as a byte-sized (or 16-bit) counter: minimal keys, a few with content
+        let plain = Item::Map(vec![(Item::Int(1), Item::Int(4))]);
+        let marked = gen_key(g, &mut Faults::none());
+        return Item::Array(sparse_long_list(g, plain, marked));
     }
     let n = g.weighted(&[1, 4, 3, 2]);
     let mut v: Vec<Item> = (0..n).map(|_| gen_key(g, f)).collect();
